@@ -335,6 +335,10 @@ def run(ck):
 
 
 def replay(rep):
+    if rep['input'].get('clause') == 'path-witness':
+        w = pathtie.finding_witness()
+        print(json.dumps({'ok': w is None, 'observed': {'difference': w}, 'expected': {'difference': None}}))
+        return 0 if w is None else 1
     if rep['input'].get('clause') == 'path-tie':
         broken, _ = pathtie.eval_case(rep['input'])
         print(json.dumps({'ok': not broken, 'observed': {'broken-correspondence': broken}, 'expected': None}, default=str))
